@@ -32,10 +32,12 @@ class Case:
         self.flags = list(flags)
         self.label = label
         self.seed = None        # schedule seed: random holding of threads at system-call entries
+        self.prealloc = None    # [(offset, length)]: regions reserved with fallocate and then written WITHOUT a sync, so that
+                                # the kernel still reports them as `unwritten` extents while read() already sees the data
 
     def key(self):
         return (self.size, tuple(self.data), self.driver, self.workers, self.bs, self.reflink, self.prior,
-                tuple(self.plan), tuple(self.flags), getattr(self, 'seed', None))
+                tuple(self.plan), tuple(self.flags), getattr(self, 'seed', None), tuple(self.prealloc or ()))
 
     def describe(self):
         return dict(size=self.size, data=self.data if len(self.data) < 8 else "%d ranges" % len(self.data),
@@ -50,7 +52,19 @@ class Obs:
 def materialise(case, d, idx):
     src = os.path.join(d, "src_%d" % idx)
     dst = os.path.join(d, "dst_%d" % idx)
-    fsutil.make_file(src, case.size, case.data, tag=idx + 1)
+    if case.prealloc:
+        fd = os.open(src, os.O_CREAT | os.O_TRUNC | os.O_RDWR, 0o644)
+        try:
+            os.ftruncate(fd, case.size)
+            for (off, ln) in case.prealloc:
+                a0 = off - off % 4096
+                end = min(case.size, (off + ln + 4095) // 4096 * 4096)
+                os.posix_fallocate(fd, a0, max(1, end - a0))
+                os.pwrite(fd, fsutil.tagged_bytes(idx + 1, off, min(ln, case.size - off)), off)
+        finally:
+            os.close(fd)          # no fsync
+    else:
+        fsutil.make_file(src, case.size, case.data, tag=idx + 1)
     if case.prior != "absent":
         psize = {"shorter": max(0, case.size // 2), "longer": case.size * 2 + 4096 + 13, "same": case.size,
                  "longer_dense": case.size + 3 * 4096}[case.prior]
@@ -259,7 +273,9 @@ def flush(ctx, out, pending, prop, oracle):
     for k, (case, o) in enumerate(pending):
         fn, inp, xs = model_input(case, o)
         o.model_xs = xs
-        if getattr(case, "binary", "xcp") == "xcp":
+        if getattr(case, "binary", "xcp") == "xcp" and not case.prealloc:
+            # (a preallocated, unsynced file's extent list may change under our feet — writeback — between the harness's
+            # look and xcp's: such cases are judged by the direct oracle only)
             byfn.setdefault(fn, []).append((k, inp))
     results = {}
     if ctx.model_ok:
